@@ -3,6 +3,7 @@ package types
 import (
 	"fmt"
 	"reflect"
+	"strconv"
 )
 
 // JSONValue is an internal type used in storing various types, for converting any type to JSON supported type.
@@ -31,6 +32,15 @@ func ToInterfaceArray(ja []JSONValue) []interface{} {
 		ret = append(ret, v.(interface{}))
 	}
 	return ret
+}
+
+// float32ToJSONFloat returns the float64 that a remote replica obtains for f: JSON carries the shortest
+// decimal form of a float32 (0.1, not 0.10000000149011612), and the receiver parses it as float64.
+func float32ToJSONFloat(f float32) float64 {
+	if f64, err := strconv.ParseFloat(strconv.FormatFloat(float64(f), 'g', -1, 32), 64); err == nil {
+		return f64
+	}
+	return float64(f)
 }
 
 // ConvertToJSONSupportedValue converts any type of Go into a type that is supported by JSON
@@ -96,11 +106,11 @@ func ConvertToJSONSupportedValue(t interface{}) JSONValue {
 		var f64 float64
 		switch vv := v.(type) {
 		case float32:
-			f64 = float64(vv)
+			f64 = float32ToJSONFloat(vv)
 		case float64:
 			f64 = vv
 		case *float32:
-			f64 = float64(*vv)
+			f64 = float32ToJSONFloat(*vv)
 		case *float64:
 			f64 = *vv
 		}
